@@ -121,8 +121,13 @@ def py_lex(data, start=0, limit=None):
 
 
 def need_of(data):
+    """smallest capacity with which the streaming reader must behave like the slice lexer: every token (and the bytes an
+    InvalidRgb verdict looks at) fits, and where the lexer runs out of data (clean end / truncated token) the remaining
+    bytes leave at least one byte of room (with a full buffer the reader cannot see the end of the stream: BufferFull)"""
     toks, end, need = py_lex(data)
-    return max([e - s for (_, s, e) in toks] + [need, 0])
+    pos = toks[-1][2] if toks else 0
+    tail = len(data) - pos + 1 if end in ("END", "ERR:%d" % E_EOF) else 0
+    return max([e - s for (_, s, e) in toks] + [need, tail, 1])
 
 
 def ops_need(data, lops):
@@ -138,8 +143,10 @@ def ops_need(data, lops):
             toks, end, nd = py_lex(data, p, 1)
             if toks:
                 need = max(need, toks[0][2] - toks[0][1]); p = toks[0][2]
-            else:
+            elif end == "ERR:%d" % E_RGB:
                 need = max(need, nd)
+            else:
+                need = max(need, len(data) - p + 1)
     return need
 
 
@@ -546,18 +553,16 @@ def check_primitives(mixed, allt, plan):
 
 
 def check_undersized(got, ref):
-    """buffer smaller than the largest token: the reader may stop early, but only with an error, never with a clean end,
-    and what it delivered must be a prefix of the lexer's tokens (never a split token)"""
+    """buffer smaller than the largest token: the reader stops early with BufferFull -- never a clean end, never Eof --
+    and what it delivered is a prefix of the lexer's tokens (never a split token)"""
     gt, ge, gp = got.split("|")
     rt, re_, rp = ref.split("|")
     g = [] if gt == "-" else gt.split(" ")
     r = [] if rt == "-" else rt.split(" ")
     if g != r[:len(g)]:
         return "tokens are not a prefix of the lexer's"
-    if got == ref:
-        return None
-    if ge == "END":
-        return "clean end although the lexer read more"
+    if ge != "ERR:101":
+        return "ends with %s instead of BufferFull" % ge
     return None
 
 
@@ -591,7 +596,7 @@ def search(ctx):
 CLAIM = {
     "text": "Coq theorems over a faithful Gallina model of binary/lexer.rs (read_token and primitives, Token::write with the `as u16` "
             "truncation, Lexer cursor methods) and binary/reader.rs (next/refill_next, read_bytes, skip_container over the BufferWindow "
-            "model incl. the Ok(0)-when-full behaviour): write/lex round trip for all well-formed token lists, prefix stability of "
+            "model incl. BufferFull when the window fills the buffer): write/lex round trip for all well-formed token lists, prefix stability of "
             "read_token, and streaming reader = slice lexer for every input, every fault-free read schedule and every capacity that "
             "holds the largest token (tokens, end class, final position). The model is tied to the code by differential execution of "
             "every entry point on token sequences, raw bytes, truncations and corruptions under all-compositions / 1-byte / periodic / "
